@@ -1116,3 +1116,52 @@ pub fn crc_special_payloads(rng: &mut Rng, per_target: usize) -> Vec<Vec<u8>> {
     }
     out
 }
+
+/// a get-list response as the LAST message whose `actual` entries are all minimal (8 bytes each:
+/// `77 01 01 01 01 01 01 01`), list signature and gateway time absent, declaring `declared` entries;
+/// `short_crc`: search the transaction id so that the checksum can be sent as `62 xx`.
+/// Returns the bytes and (when declared == actual) the file.
+pub fn minimal_list_file(rng: &mut Rng, declared: usize, actual: usize, short_crc: bool, with_open: bool) -> (Vec<u8>, GFile) {
+    let entry = GEntry { obj_name: vec![], status: None, val_time: None, unit: None, scaler: None, value: GValue::Bytes(vec![]), sig: None };
+    let mut msgs = Vec::new();
+    let mut out = Vec::new();
+    if with_open {
+        let m = GMsg { tid: vec![1], group: 0, abort: 0, body: GBody::Close { sig: None } };
+        out.extend(encode_file(&mut Rng::new(1), &GFile { msgs: vec![m.clone()] }, true));
+        msgs.push(m);
+    }
+    let mut tid = vec![rng.byte(), rng.byte(), rng.byte()];
+    loop {
+        let mut head: Vec<u8> = vec![0x76, 0x04];
+        head.extend_from_slice(&tid);
+        head.extend_from_slice(&[0x62, 0x00, 0x62, 0x00, 0x72, 0x63, 0x07, 0x01, 0x77, 0x01, 0x01, 0x01, 0x01]);
+        let mut k = 1;
+        while (declared as u64) >= 1u64 << (4 * k) {
+            k += 1;
+        }
+        Enc::tlf_raw(7, declared as u64, k, &mut head);
+        for _ in 0..actual {
+            head.extend_from_slice(&[0x77, 0x01, 0x01, 0x01, 0x01, 0x01, 0x01, 0x01]);
+        }
+        head.extend_from_slice(&[0x01, 0x01]);
+        let c = crc16_x25(&head);
+        if short_crc && c & 0xff != 0 {
+            tid = vec![rng.byte(), rng.byte(), rng.byte()];
+            continue;
+        }
+        out.extend_from_slice(&head);
+        if short_crc {
+            out.extend_from_slice(&[0x62, (c >> 8) as u8, 0x00]);
+        } else {
+            out.extend_from_slice(&[0x63, c as u8, (c >> 8) as u8, 0x00]);
+        }
+        break;
+    }
+    msgs.push(GMsg {
+        tid,
+        group: 0,
+        abort: 0,
+        body: GBody::GetList { client_id: None, server_id: vec![], list_name: None, act_sensor_time: None, entries: vec![entry; actual], list_sig: None, act_gateway_time: None },
+    });
+    (out, GFile { msgs })
+}
